@@ -184,6 +184,10 @@ def request_pool():
         ({"": H + "lights = GrowLights[\"Potatos\"]\nlights.On = d0.Setting > 3\n"}, {"compact": True}),
         ({"": H + "def f(a, b):\n    return a * b + 1\nwhile True:\n    db.Setting = f(d0.Setting, 2)\n    db.On = f(1, d0.On)\n    yield_()\n"}, {"inline_functions": False}),
         ({"": H + "def f(a, b):\n    return a * b + 1\nwhile True:\n    db.Setting = f(d0.Setting, 2)\n    db.On = f(1, d0.On)\n    yield_()\n"}, {"use_push_pop_functions": True, "inline_functions": False}),
+        # compile-time values of mutable type that are consumed more than once (walked, indexed at run time, sized)
+        ({"": H + "@constexpr\ndef table():\n    return [10 * (k + 1) for k in range(7)]\nlevels = table()\nfor v in levels:\n    db.Setting = v\nwhile True:\n    db.On = levels[d0.Setting]\n    yield_()\n"}, {}),
+        ({"": H + "@constexpr\ndef table():\n    return [3, 1, 4, 1, 5]\nlevels = table()\nwhile True:\n    db.On = levels[d0.Setting]\n    for v in levels:\n        db.Setting = v\n    yield_()\n"}, {"compact": True}),
+        ({"": H + "levels = [9, 8, 7, 6, 5, 4, 3]\nwhile True:\n    db.On = levels[d0.Setting]\n    for v in levels:\n        db.Setting = v\n    yield_()\n"}, {}),
         ({"": H + "db.Setting = unknown_thing\n"}, {}),
         ({"": "def broken(:\n"}, {}),
         ({"": main2, "tank": lib1, "pump": lib2}, {}),
@@ -401,6 +405,26 @@ def constexpr_check(rep, tier, seed):
             if "error" not in r:
                 bad = ("def f(a): " + kw, "f(1)", "main", f"a constexpr function containing {kw.split('(')[0]} was accepted", None)
                 break
+    # ... in every syntactic position (each body would evaluate to 1 if it were accepted, so acceptance shows as a missing error)
+    t1 = time.time()
+    rej_bad, n_rej = None, 0
+    templates = ["def f(a):\n    h = {w}\n    return 1", "def f(a, g={w}):\n    return 1", "def f(a):\n    list(map({w}, []))\n    return 1",
+                 "def f(a):\n    import builtins\n    h = builtins.{w}\n    return 1", "def f(a):\n    def inner():\n        return {w}\n    return 1",
+                 "def f(a):\n    k = lambda: {w}\n    return 1", "def f(a):\n    return 1 if {w} is not None else 1",
+                 "def f(a):\n    if a < 0:\n        {w}('x')\n    return 1", "def f(a):\n    return [1 for _ in [{w}]][0]", "def f(a):\n    {w}('1', *[])\n    return 1" ]
+    for w in ("open", "eval", "exec"):
+        for t in templates:
+            body = t.format(w=w)
+            r = compile_code(H + "@constexpr\n" + body + "\ndb.Setting = f(1)\n", CompileOptions(append_version=False))
+            n_rej += 1
+            if "error" not in r and rej_bad is None:
+                rej_bad = (body, f"a constexpr function that contains the name {w} was accepted and evaluated; emitted: {r.get('code', '')[:80]!r}")
+    ob = Ob("compile_pass.CompilerPassHandleConstexpr.check_constexpr_function#functions_containing_open_eval_exec_are_rejected", HELD if not rej_bad else VIOLATED, kind="bounded", backend="native",
+            target="compile_pass.CompilerPassHandleConstexpr.check_constexpr_function", bound=f"{n_rej} constexpr functions: the names open / eval / exec as alias source, default argument, call argument, attribute, inside a nested def / lambda / comprehension / conditional expression / dead branch, starred call", time_s=time.time() - t1)
+    if rej_bad:
+        ob.witness, ob.replayed = {"sources": H + "@constexpr\n" + rej_bad[0] + "\ndb.Setting = f(1)\n", "options": {"append_version": False}}, True
+        ob.detail["observed"] = rej_bad[1]
+    rep.add(ob)
     # same call text, different bodies, in one process (the result must follow the body)
     if not bad:
         for b1, b2 in (("    return n * 2", "    return n * 4"), ("    return n + 1", "    return n + HASH('k')")):
